@@ -32,9 +32,11 @@ Unify == \E v \in Nodes, w \in Nodes : st' = LUnify(st, v, w) /\ Em(Edit, "lax.u
 DeleteNodes == \E ids \in SeqsUpTo(0 .. LN(st), 2) :
              /\ Em(Edit, "lax.delete_nodes", P11, [pre |-> st, ids |-> ids])
              /\ Em(Edit, "lax.h.delete_nodes_witness", P11, [pre |-> st, ids |-> ids])
+             /\ Em(Edit, "lax.h.delete_nodes", P11, [pre |-> st, ids |-> ids])
              /\ (IF DelAccepts(ids, LN(st)) THEN st' = LDeleteNodesOpen(st, ids).st ELSE st' = st)
 DeleteEdges == \E ids \in SeqsUpTo(0 .. LE(st), 2) :
              /\ Em(Edit, "lax.delete_edges", P11, [pre |-> st, ids |-> ids])
+             /\ Em(Edit, "lax.h.delete_edge", P11, [pre |-> st, ids |-> ids])        \* deprecated alias
              /\ (IF DelAccepts(ids, LE(st)) THEN st' = LDeleteEdges(st, ids) ELSE st' = st)
 Relabel == /\ Em(Edit, "lax.map_nodes", P11, [pre |-> st, tbl |-> <<1, 0>>])
            /\ Em(Edit, "lax.map_edges", P11, [pre |-> st, tbl |-> <<1, 0>>])
@@ -47,6 +49,7 @@ Relabel == /\ Em(Edit, "lax.map_nodes", P11, [pre |-> st, tbl |-> <<1, 0>>])
 SetInterfaces == \E s \in SeqsUpTo(Nodes, I), t \in SeqsUpTo(Nodes, I) : st' = [st EXCEPT !.sources = s, !.targets = t]
 QuotientOk == /\ LaxConsistent(st) /\ LET q == CanonQuotMap(st) IN st' = LApplyQuot(st, q.table, q.target)
               /\ Em(Quo, "lax.quotient", P9, [pre |-> st]) /\ Em(Quo, "lax.h.quotient", P9, [pre |-> st])
+              /\ Em(Quo, "lax.quotient_witness", P9, [pre |-> st])                      \* deprecated alias
               /\ Em(Quo, "lax.h.coequalizer", P9, [pre |-> st]) /\ Em(Quo, "lax.is_strict", P9, [pre |-> st])
 QuotientFail == /\ ~LaxConsistent(st) /\ st' = st
                 /\ Em(Quo, "lax.quotient", P9, [pre |-> st]) /\ Em(Quo, "lax.h.quotient", P9, [pre |-> st])
